@@ -184,6 +184,7 @@ func runC15(x *Ctx) {
 		for k := 0; k < len(base.w.Chunks); k++ {
 			vs = append(vs, variant{sim.WFaultFail, k, c15Exec(sc, sim.WFaultFail, k)})
 			vs = append(vs, variant{sim.WFaultShort, k, c15Exec(sc, sim.WFaultShort, k)})
+			vs = append(vs, variant{sim.WFaultOnce, k, c15Exec(sc, sim.WFaultOnce, k)})
 		}
 	})
 	if !s.Run() {
@@ -193,7 +194,7 @@ func runC15(x *Ctx) {
 	fired := 0
 	for _, v := range vs {
 		o := v.obs
-		what := fmt.Sprintf("calls %s accept=%q pretty=%v coding=%q fault=%s@write#%d", jsonStr(sc.Calls), sc.Accept, sc.Pretty, sc.Coding, []string{"none", "fail", "short"}[v.mode], v.at)
+		what := fmt.Sprintf("calls %s accept=%q pretty=%v coding=%q fault=%s@write#%d", jsonStr(sc.Calls), sc.Accept, sc.Pretty, sc.Coding, []string{"none", "fail", "short", "once"}[v.mode], v.at)
 		if o.escaped != nil {
 			x.Violate("panic", "%s: panic %v", what, o.escaped)
 			continue
@@ -204,7 +205,7 @@ func runC15(x *Ctx) {
 		}
 		if o.w.Fired > 0 {
 			fired++
-			x.Count("fault-" + []string{"none", "wfail", "wshort"}[v.mode])
+			x.Count("fault-" + []string{"none", "wfail", "wshort", "wonce"}[v.mode])
 		}
 		wantStatus := 200
 		if len(o.w.Statuses) > 0 {
